@@ -97,18 +97,20 @@ def equalsG (env : Env) : Nat → Ty → GVal → GVal → Bool
 
 /-! ### Default constructor and accessors (gen/field.go) -/
 
-/-- `Default_<Name>()`: only generated when some field has a default. -/
-def defaultCtor (sd : StructDef) : Option GVal :=
-  if sd.fields.any (·.dflt.isSome) then
-    some (.struct (sd.fields.map fun f => f.dflt.getD .nil))
-  else none
-
 /-- zero value of a type in value representation (what an accessor's named result holds). -/
 def zeroOf (t : Ty) : GVal :=
   match t.root with
   | .bool => .bool false | .i8 => .i8 0 | .i16 => .i16 0 | .i32 => .i32 0 | .i64 => .i64 0
   | .double => .double 0 | .string => .str [] | .enum _ => .i32 0
   | _ => .nil
+
+/-- `Default_<Name>()`: only generated when some field has a default. Fields without a
+default keep Go's zero value: nil for pointers/slices/maps, the zero for required primitives. -/
+def defaultCtor (sd : StructDef) : Option GVal :=
+  if sd.fields.any (·.dflt.isSome) then
+    some (.struct (sd.fields.map fun f =>
+      f.dflt.getD (if f.req && f.ty.isPrim then zeroOf f.ty else .nil)))
+  else none
 
 /-- `Get<Field>()` on receiver `recv` (nil allowed). -/
 def getField (sd : StructDef) (idx : Nat) (recv : GVal) : Option GVal :=
